@@ -243,6 +243,15 @@ func (fi *flowInfo) callLeavesAt(call *ssa.Call, idx int, out map[string]bool, e
 			}
 		}
 	}
+	if els := orArgs(call); len(els) > 0 {
+		// cmp.Or hands back one of its arguments (or the zero value)
+		for _, e := range els {
+			for k := range fi.leaves(e) {
+				out[k] = true
+			}
+		}
+		return
+	}
 	var callees []*ssa.Function
 	if cal := call.Call.StaticCallee(); cal != nil {
 		callees = append(callees, cal)
